@@ -2,6 +2,7 @@
    Proofs/Edi*.v.  Model: Model/Edi.v (go-corelib ByteIndexWithEsc / ByteSplitWithEsc /
    ByteUnescape, NonValidatingReader.readToken, rawSegToNode, and the generator's inverse). *)
 From Coq Require Import List NArith Bool Arith.
+From Coq Require String.
 From Coq.Strings Require Import Byte.
 Import ListNotations.
 From OV Require Import Base.Bytes Base.Utf8 Model.Edi Proofs.Edi.
@@ -40,6 +41,7 @@ Proof. exact unescape_escape. Qed.
 
 (* ---- non-vacuity and the documented corner cases -------------------------------------------- *)
 Local Open Scope string_scope.
+Import String.StringSyntax.
 (* "a??b?*c" with release "?" and delimiter "*": the only "*" is escaped *)
 Example index_with_esc_ex :
   index_with_esc (hx "613f3f623f2a63") (hx "2a") (hx "3f") = Ok None /\
